@@ -105,6 +105,14 @@ fn parse_args() -> Opts {
             "--max-len" => o.max_len = val().parse().ok(),
             "--case-timeout" => o.case_timeout_s = val().parse().unwrap_or(20),
             "--wall-cap" => o.wall_cap_s = val().parse().unwrap_or(3600),
+            "--self-timeout" => {
+                // a confirmation run ends itself even when the process that spawned it has died meanwhile
+                let secs: u64 = val().parse().unwrap_or(150);
+                std::thread::spawn(move || {
+                    std::thread::sleep(std::time::Duration::from_secs(secs));
+                    std::process::exit(4);
+                });
+            }
             "--max-violations" => o.max_violations = val().parse().unwrap_or(40),
             "--verbose" => o.verbose = true,
             "--tier" => o.thorough = val() == "thorough",
@@ -272,7 +280,7 @@ pub fn main(entries: Vec<GrammarEntry>) -> ! {
                     let confirmed = if parts.len() >= 3 {
                         let exe = std::env::current_exe().expect("exe");
                         let mut cmd = std::process::Command::new(exe);
-                        cmd.args(["--lens", &lens, "--tier", if thorough { "thorough" } else { "quick" }, "--only-grammar", parts[0], "--only-rule", parts[1], "--only-input", parts[2], "--threads", "1", "--case-timeout", "100000"])
+                        cmd.args(["--lens", &lens, "--tier", if thorough { "thorough" } else { "quick" }, "--only-grammar", parts[0], "--only-rule", parts[1], "--only-input", parts[2], "--threads", "1", "--case-timeout", "100000", "--self-timeout", "150"])
                             .stdout(std::process::Stdio::null())
                             .stderr(std::process::Stdio::null());
                         match cmd.spawn() {
